@@ -521,15 +521,45 @@ fn run(ctx: &mut Ctx) {
             });
         }
     }
+    // ---------------- (b5) two instances of one kind that differ in a single byte, in both orders: the first in walk
+    // order is the one reported, whichever of the two holds the "better" value
+    ctx.bound("ordered_duplicates", "per kind: two instances that differ in one body byte (each of the first 40 body bytes; value pairs 2/3, 0/1, 0x7F/0x80, 0xFE/0xFF), both orders, with another tag between them");
+    for kind in 1..=21u32 {
+        let img = variants(kind).into_iter().next().unwrap();
+        for p in 8..img.len().min(48) {
+            for (lo, hi) in [(2u8, 3u8), (0, 1), (0x7F, 0x80), (0xFE, 0xFF)] {
+                if !legal(kind, &img, p, lo) || !legal(kind, &img, p, hi) {
+                    continue;
+                }
+                for first_lo in [true, false] {
+                    let mut a = img.clone();
+                    let mut b = img.clone();
+                    a[p] = if first_lo { lo } else { hi };
+                    b[p] = if first_lo { hi } else { lo };
+                    let region = bi::region(&[a, bi::sample(other_kind(kind), 9, 0), b, bi::end_tag()], &bi::marker_pad);
+                    let describe = || J::obj().set("part", "ordered_duplicates").set("kind", bi::kind_name(kind)).set("byte", p).set("values", format!("{:#x} then {:#x}", if first_lo { lo } else { hi }, if first_lo { hi } else { lo })).set("region", J::hex(&region[..region.len().min(160)]));
+                    ctx.leaf(describe, |ctx| {
+                        ctx.state(hash::hash_bytes(&region));
+                        ctx.nontrivial();
+                        let want = expected_for(&region, kind);
+                        check_getter(ctx, &arena, &region, kind, want, "ordered_duplicates");
+                    });
+                }
+            }
+        }
+    }
     // ---------------- (c) EFI withholding rule
-    ctx.bound("efi_rule", "all sequences of length <= 4 over {EfiMmap, EfiBs, other, EfiMmap with an unsupported descriptor version (only together with EfiBs)}: the EFI memory map is withheld - and not looked into - while a boot-services-not-exited tag is present anywhere");
+    ctx.bound("efi_rule", "all sequences of length <= 4 over {EfiMmap, EfiBs, other, EfiMmap with an unsupported descriptor version (only together with EfiBs), custom tags numbered 50 and 0x10012 (18 modulo 32 / 18 in the low half)}: the EFI memory map is withheld - and not looked into - while a boot-services-not-exited tag is present anywhere");
     for len in 0..=4 {
-        for code in 0..4usize.pow(len as u32) {
+        for code in 0..6usize.pow(len as u32) {
             let mut tags = vec![];
             let mut c = code;
             let mut seq = vec![];
             for i in 0..len {
-                tags.push(match c % 4 {
+                tags.push(match c % 6 {
+                    // custom tags whose number is 18 modulo 32 / has 18 in its low byte: not a boot-services tag
+                    4 => bi::tag(50, &[0xC1, 0xC2, 0xC3, 0xC4]),
+                    5 => bi::tag(0x0001_0012, &[]),
                     0 => bi::sample(bi::EFI_MMAP, i, 1 + i % 2),
                     1 => bi::sample(bi::EFI_BS, 0, 0),
                     2 => bi::sample(bi::LOAD_BASE, i, 0),
@@ -541,15 +571,18 @@ fn run(ctx: &mut Ctx) {
                         t
                     }
                 });
-                seq.push(c % 4);
-                c /= 4;
+                seq.push(c % 6);
+                c /= 6;
+            }
+            if len == 4 && seq.iter().any(|x| *x >= 4) && seq.iter().filter(|x| **x >= 3).count() > 2 {
+                continue; // keep the longest sequences to at most two of the rarer symbols
             }
             if seq.contains(&3) && !seq.contains(&1) {
                 continue; // without a boot-services tag the refused map would be decoded: C18's subject, not this part's
             }
             tags.push(bi::end_tag());
             let region = bi::region(&tags, &bi::zero_pad);
-            let describe = || J::obj().set("part", "efi_rule").set("sequence", format!("{:?} (0 = EfiMmap, 1 = EfiBs, 2 = other, 3 = EfiMmap with descriptor version 2)", seq)).set("region", J::hex(&region));
+            let describe = || J::obj().set("part", "efi_rule").set("sequence", format!("{:?} (0 = EfiMmap, 1 = EfiBs, 2 = other, 3 = EfiMmap with descriptor version 2, 4 = custom tag 50, 5 = custom tag 0x10012)", seq)).set("region", J::hex(&region));
             ctx.leaf(describe, |ctx| {
                 ctx.state(hash::hash_bytes(&region));
                 ctx.nontrivial();
